@@ -42,6 +42,7 @@ func c12Scenarios(tier string) []*explore.Scenario {
 		ci := ci
 		scs = append(scs, &explore.Scenario{Name: fmt.Sprintf("c12/request/connection=%d", ci), Bound: bound, Body: func(x *explore.Ctx) { c12Body(x, ci, -1) }})
 	}
+	scs = append(scs, &explore.Scenario{Name: "c12/extension-offer-quoted-strings", Bound: 1, Body: func(x *explore.Ctx) { c12Body(x, 0, -2) }})
 	// every byte value inside an application-supplied response header value
 	for pos := 0; pos < 3; pos++ {
 		pos := pos
@@ -74,9 +75,18 @@ var c12Ext = [][]string{
 	{"permessage-deflate; client_max_window_bits=\"10\""}, {"foo, permessage-deflate"}, {"foo", "permessage-deflate"}, {"foo; a=1; b=\"c,d\", permessage-deflate; server_max_window_bits=10"},
 	{"x-webkit-deflate-frame"}, {"permessage-deflate2"}, {";;, permessage-deflate"}, {"PERMESSAGE-DEFLATE"},
 }
+
+// quoted-string contents that try to hide separators, escapes and the extension name
+var c12Quoted = []string{`a`, `a\\\\`, `\\"`, `, permessage-deflate`, `, permessage-deflate; z=`, `; permessage-deflate`, `permessage-deflate`, ``, `a\\\\\\"`, `\\\\\\\\`}
+var c12QuotedTail = []string{``, `; z="`, `, permessage-deflate`, `; z="\\`, `, baz`}
+
 var c12ServerProtos = [][]string{nil, {}, {"chat"}, {"superchat", "chat"}, {"other"}}
 
 func c12Body(x *explore.Ctx, connIdx int, bytePos int) {
+	quotedFamily := bytePos == -2
+	if quotedFamily {
+		bytePos = -1
+	}
 	// ---- request
 	method := []string{"GET", "POST", "HEAD", "get"}[x.Choose(4, "method")]
 	hdr := http.Header{}
@@ -92,6 +102,15 @@ func c12Body(x *explore.Ctx, connIdx int, bytePos int) {
 	offer := c12Proto[x.Choose(len(c12Proto), "Protocol-offer")]
 	set("Sec-Websocket-Protocol", offer)
 	extOffer := c12Ext[x.Choose(len(c12Ext), "Extensions-offer")]
+	if quotedFamily {
+		q1 := c12Quoted[x.Pick(len(c12Quoted), "q1")]
+		q2 := c12Quoted[x.Pick(len(c12Quoted), "q2")]
+		tail := c12QuotedTail[x.Pick(len(c12QuotedTail), "tail")]
+		extOffer = []string{`foo; x="` + q1 + `", bar; y="` + q2 + `"` + tail}
+		if x.Pick(2, "second-line") == 1 {
+			extOffer = []string{`foo; x="` + q1 + `"`, `bar; y="` + q2 + `"` + tail}
+		}
+	}
 	set("Sec-Websocket-Extensions", extOffer)
 	host := "server.example.com"
 	originKind := x.Choose(3, "Origin")
@@ -241,6 +260,9 @@ func c12Body(x *explore.Ctx, connIdx int, bytePos int) {
 		if e.Name == "permessage-deflate" {
 			announced = true
 		}
+	}
+	if announced {
+		x.Check(hsref.NamesExtensionOutsideQuotes(extOffer, "permessage-deflate"), key("deflate-announced-not-offered"), "permessage-deflate announced although the offer names it only inside a quoted string (or not at all): %q", extOffer)
 	}
 	if wf {
 		x.Check(announced == (offeredDeflate && u.EnableCompression), key("deflate-announcement"), "permessage-deflate announced=%v, offered=%v enabled=%v (offer %q)", announced, offeredDeflate, u.EnableCompression, extOffer)
